@@ -4,6 +4,10 @@
 //! `RouterValueStreamExt`. Stage `raw`: a raw client (oracle.rs frames over TCP, or over a
 //! tokio-tungstenite WebSocket) performs open/next/cancel itself and logs every (chunk, last) pair.
 //! Stage `pullers`: the library pullers (sync Client, AsyncClient, WebSocketClient) on the same grid.
+//! Both stages also run a family with GATED producers (reader / writer producers that park on a gate
+//! the harness opens): `raw` puts several `next` requests for one stream id in flight together while
+//! the producer is parked before its end or failure; `pullers` releases the stream from a second
+//! connection in the middle of a library pull.
 //! The expected logical bytes are computed independently (`beve::to_vec*` in one shot, or the source
 //! bytes), decompression is done by the harness with the `zstd` crate.
 
@@ -30,17 +34,20 @@ mod imp {
     use crate::common::*;
     use repe::value_stream::{
         Compression, RouterValueStreamExt, StreamOpts, pull_complex_slice, pull_complex_slice_async, pull_consume, pull_consume_async,
-        pull_to_vec, pull_to_vec_async, pull_typed_slice, pull_typed_slice_async, pull_value, pull_value_async,
+        pull_to_file, pull_to_file_async, pull_to_vec, pull_to_vec_async, pull_typed_slice, pull_typed_slice_async, pull_value,
+        pull_value_async,
     };
     use repe::{AsyncClient, BodyFormat, Client, Complex, RepeError, Router, Server, WebSocketClient, WebSocketServer};
     use serde::ser::{Error as _, SerializeStruct};
     use serde::{Deserialize, Serialize};
     use serde_json::{Value, json};
-    use std::collections::BTreeMap;
+    use std::cell::Cell;
+    use std::collections::{BTreeMap, HashMap};
     use std::io::{self, Read, Write};
     use std::net::SocketAddr;
-    use std::sync::Arc;
+    use std::sync::atomic::{AtomicU64, Ordering};
     use std::sync::mpsc;
+    use std::sync::{Arc, Condvar, Mutex};
     use std::time::{Duration, Instant};
 
     // ------------------------------------------------------------------ producer side (harness-owned data)
@@ -405,13 +412,16 @@ mod imp {
         chunk: usize,
         depth: usize,
         zstd: bool,
+        /// 0 = the boundary grid; 1 = the gated-producer family of the stage (raw: concurrent `next`
+        /// on one stream id; pullers: a foreign cancel in the middle of a pull)
+        fam: u8,
     }
     impl Cfg {
         fn opts(&self) -> StreamOpts {
             StreamOpts { chunk_bytes: self.chunk, compression: if self.zstd { Compression::Zstd } else { Compression::None }, zstd_level: 3, session_depth: self.depth }
         }
         fn json(&self) -> Value {
-            json!({"transport": format!("{:?}", self.tr), "kind": self.kind.name(), "chunk_bytes": self.chunk, "session_depth": self.depth, "zstd": self.zstd})
+            json!({"transport": format!("{:?}", self.tr), "kind": self.kind.name(), "chunk_bytes": self.chunk, "session_depth": self.depth, "zstd": self.zstd, "family": if self.fam == 0 { "grid" } else { "gated" }})
         }
     }
 
@@ -428,8 +438,11 @@ mod imp {
     }
 
     fn start_server(cfg: &Cfg, rt: &Arc<tokio::runtime::Runtime>) -> Result<Srv, String> {
-        let router = build_router(cfg.kind, cfg.opts());
-        match cfg.tr {
+        start_server_with(build_router(cfg.kind, cfg.opts()), cfg.tr, rt)
+    }
+
+    fn start_server_with(router: Router, tr: Tr, rt: &Arc<tokio::runtime::Runtime>) -> Result<Srv, String> {
+        match tr {
             Tr::Tcp => {
                 let server = Server::new(router);
                 let l = server.listen("127.0.0.1:0").map_err(|e| format!("bind: {e}"))?;
@@ -446,6 +459,137 @@ mod imp {
                     let _ = WebSocketServer::new(router).serve_listener(l, "/repe").await;
                 });
                 Ok(Srv { addr, ws_task: Some(t) })
+            }
+        }
+    }
+
+    // ------------------------------------------------------------------ gated producers
+
+    /// Upper bound on how long a producer stays parked when the harness never opens its gate.
+    const GATE_PARK_MAX: Duration = Duration::from_secs(25);
+
+    #[derive(Default)]
+    struct GateSt {
+        parked: bool,
+        open: bool,
+        timed_out: bool,
+    }
+    /// A one-shot gate: the producer parks on it (and thereby tells the harness it was asked for the
+    /// bytes behind the gate); the harness opens it.
+    #[derive(Default)]
+    pub struct Gate {
+        st: Mutex<GateSt>,
+        cv: Condvar,
+    }
+    impl Gate {
+        fn park(&self) {
+            let mut g = self.st.lock().unwrap_or_else(|e| e.into_inner());
+            g.parked = true;
+            self.cv.notify_all();
+            let (mut g, _) = self.cv.wait_timeout_while(g, GATE_PARK_MAX, |s| !s.open).unwrap_or_else(|e| e.into_inner());
+            if !g.open {
+                g.timed_out = true;
+            }
+        }
+        fn wait_parked(&self, d: Duration) -> bool {
+            let g = self.st.lock().unwrap_or_else(|e| e.into_inner());
+            let (g, _) = self.cv.wait_timeout_while(g, d, |s| !s.parked).unwrap_or_else(|e| e.into_inner());
+            g.parked
+        }
+        fn open(&self) {
+            self.st.lock().unwrap_or_else(|e| e.into_inner()).open = true;
+            self.cv.notify_all();
+        }
+        fn timed_out(&self) -> bool {
+            self.st.lock().unwrap_or_else(|e| e.into_inner()).timed_out
+        }
+    }
+
+    /// A producer source with a gate: `data[..park_at]` is emitted, the producer parks, then the rest
+    /// is emitted and the producer finishes (or fails / panics when `fail`).
+    pub struct GSrc {
+        data: Vec<u8>,
+        park_at: Option<usize>,
+        fail: bool,
+        panic: bool,
+        gate: Gate,
+    }
+
+    /// Per-server registry of gated sources, addressed by the resource key `gate:<id>`.
+    #[derive(Default)]
+    pub struct GateTable {
+        next: AtomicU64,
+        m: Mutex<HashMap<u64, Arc<GSrc>>>,
+    }
+    impl GateTable {
+        fn add(&self, data: Vec<u8>, park_at: Option<usize>, fail: bool, panic: bool) -> (String, u64, Arc<GSrc>) {
+            let id = self.next.fetch_add(1, Ordering::Relaxed) + 1;
+            let src = Arc::new(GSrc { data, park_at, fail, panic, gate: Gate::default() });
+            self.m.lock().unwrap().insert(id, src.clone());
+            (format!("gate:{id}"), id, src)
+        }
+        fn remove(&self, id: u64) {
+            self.m.lock().unwrap().remove(&id);
+        }
+        fn resolve(&self, res: &str) -> Option<Arc<GSrc>> {
+            let id: u64 = res.strip_prefix("gate:")?.parse().ok()?;
+            self.m.lock().unwrap().get(&id).cloned()
+        }
+    }
+
+    struct GRead {
+        src: Arc<GSrc>,
+        pos: usize,
+        passed: bool,
+    }
+    impl Read for GRead {
+        fn read(&mut self, out: &mut [u8]) -> io::Result<usize> {
+            if !self.passed && self.src.park_at.map(|p| p.min(self.src.data.len())) == Some(self.pos) {
+                self.src.gate.park();
+                self.passed = true;
+            }
+            let len = self.src.data.len();
+            if self.pos >= len {
+                return if self.src.fail { Err(io::Error::other("injected gated reader failure")) } else { Ok(0) };
+            }
+            let mut lim = len;
+            if !self.passed {
+                if let Some(p) = self.src.park_at {
+                    lim = lim.min(p);
+                }
+            }
+            let n = out.len().min(lim - self.pos);
+            out[..n].copy_from_slice(&self.src.data[self.pos..self.pos + n]);
+            self.pos += n;
+            Ok(n)
+        }
+    }
+
+    fn gwrite(src: &GSrc, w: &mut dyn Write) -> io::Result<()> {
+        let len = src.data.len();
+        let p = src.park_at.unwrap_or(len).min(len);
+        w.write_all(&src.data[..p])?;
+        if src.park_at.is_some() {
+            src.gate.park();
+        }
+        w.write_all(&src.data[p..])?;
+        if src.fail {
+            if src.panic {
+                panic!("injected gated writer panic");
+            }
+            return Err(io::Error::other("injected gated writer failure"));
+        }
+        Ok(())
+    }
+
+    /// Reader kind: `with_reader_stream`; writer kind: `with_writer_stream` tagged raw binary; the BEVE
+    /// kinds: `with_writer_stream` tagged BEVE (the harness writes the independently encoded bytes).
+    fn build_gated_router(kind: Kind, opts: StreamOpts, table: Arc<GateTable>) -> Router {
+        match kind {
+            Kind::Reader => Router::new().with_reader_stream(move |res: &str| table.resolve(res).map(|src| GRead { src, pos: 0, passed: false }), opts),
+            k => {
+                let fmt = if k.beve() { BodyFormat::Beve } else { BodyFormat::RawBinary };
+                Router::new().with_writer_stream(fmt, move |res: &str| table.resolve(res).map(|src| Box::new(move |w: &mut dyn Write| gwrite(&src, w)) as BoxWriter), opts)
             }
         }
     }
@@ -548,7 +692,7 @@ mod imp {
                     };
                     for depth in depths {
                         for tr in transports_for(i + depth, &mut rng) {
-                            v.push(Cfg { tr, kind, chunk, depth, zstd });
+                            v.push(Cfg { tr, kind, chunk, depth, zstd, fam: 0 });
                         }
                     }
                 }
@@ -929,7 +1073,413 @@ mod imp {
         Ok(())
     }
 
+    // ------------------------------------------------------------------ stage raw, gated family: concurrent `next` on one stream id
+
+    #[derive(Clone, Debug)]
+    struct ConcPlan {
+        n: usize,
+        park_at: usize,
+        fail: bool,
+        panic: bool,
+        /// number of `next` requests put in flight together
+        k: usize,
+        /// all of them pipelined on one connection (WebSocket server only: off-reader handlers)
+        same_conn: bool,
+        /// sequential pulls before the concurrent round
+        pre: usize,
+        /// `pre` is everything deliverable before the gate, so the first concurrent `next` parks on the producer
+        targeted: bool,
+        /// the order in which the requesters write their request, and the pauses between the writes
+        order: Vec<usize>,
+        gaps_us: Vec<u64>,
+        /// pause between the last request written (and the producer seen parked) and opening the gate
+        open_delay_us: u64,
+        data_seed: u64,
+    }
+    impl ConcPlan {
+        fn json(&self, cfg: &Cfg) -> Value {
+            json!({"cfg": cfg.json(), "payload_len": self.n, "park_at": self.park_at, "producer_fails": self.fail, "producer_panics": self.panic, "in_flight": self.k,
+                   "same_connection": self.same_conn, "sequential_pulls_before": self.pre, "targeted": self.targeted, "write_order": self.order, "write_gaps_us": self.gaps_us,
+                   "open_delay_us": self.open_delay_us, "data_seed": self.data_seed})
+        }
+    }
+
+    fn conc_plans(cfg: &Cfg, rng: &mut Rng) -> Vec<ConcPlan> {
+        let c = cfg.chunk;
+        let mut lens = vec![0usize, 1];
+        if !cfg.zstd {
+            let tmax = if c <= 64 { 4 } else if c <= 4096 { 3 } else { 2 };
+            for t in 1..=tmax {
+                lens.extend([t * c, t * c + 1, (t * c).saturating_sub(1)]);
+            }
+            if c > 2 {
+                lens.push(1 + rng.usize_below(c - 1));
+            }
+        } else {
+            // inputs this small stay inside the zstd encoder until it is finished: the whole wire stream follows the gate
+            lens.extend([40, 100 + rng.usize_below(200)]);
+            if c >= 4096 {
+                lens.extend([3000, 1 + rng.usize_below(16_000)]);
+            }
+        }
+        lens.sort();
+        lens.dedup();
+        let mut plans = vec![];
+        for &n in &lens {
+            for fail in [false, true] {
+                let park_at = if rng.chance(2, 3) { n } else { rng.usize_below(n + 1) };
+                let k = 2 + rng.usize_below(2);
+                let deliverable = if cfg.zstd { 0 } else { (park_at / c).saturating_sub(1) };
+                let pre = if rng.chance(3, 4) { deliverable } else { rng.usize_below(deliverable + 1) };
+                let mut order: Vec<usize> = (0..k).collect();
+                rng.shuffle(&mut order);
+                plans.push(ConcPlan {
+                    n,
+                    park_at,
+                    fail,
+                    panic: fail && cfg.kind == Kind::Writer && rng.chance(1, 4),
+                    k,
+                    same_conn: cfg.tr == Tr::Ws && rng.chance(1, 3),
+                    pre,
+                    targeted: pre == deliverable,
+                    order,
+                    gaps_us: (1..k).map(|_| *rng.pick(&[0u64, 0, 30, 200, 1000, 3000])).collect(),
+                    open_delay_us: *rng.pick(&[0u64, 200, 1000, 2000, 4000, 10_000]),
+                    data_seed: rng.below(1 << 40),
+                });
+            }
+        }
+        plans
+    }
+
+    fn terminal(o: &NextOut) -> bool {
+        matches!(o, NextOut::ErrResp { .. } | NextOut::Chunk { last: true, .. })
+    }
+    fn out_tag(o: &NextOut) -> String {
+        match o {
+            NextOut::Chunk { bytes, last, .. } => format!("{}{}", bytes.len(), if *last { "!" } else { "" }),
+            NextOut::ErrResp { ec, msg } => format!("E{ec}:{}", trunc(msg, 48)),
+        }
+    }
+
+    /// Walk one candidate total order of the responses to `next` on one stream.
+    fn conc_walk(order: &[&NextOut], healthy: bool, expected: &[u8], zstd: bool) -> Result<(), (&'static str, String)> {
+        let mut wire: Vec<u8> = vec![];
+        let mut state = 0u8; // 0 live, 1 ended (end marker seen), 2 failed (error seen)
+        for (i, r) in order.iter().enumerate() {
+            match (state, r) {
+                (0, NextOut::Chunk { bytes, last, .. }) => {
+                    wire.extend_from_slice(bytes);
+                    if *last {
+                        state = 1;
+                    }
+                }
+                (0, NextOut::ErrResp { .. }) => state = 2,
+                (_, NextOut::ErrResp { .. }) => {}
+                (1, NextOut::Chunk { bytes, last, .. }) => {
+                    return Err(("next-after-end-served", format!("response #{i} is a chunk of {} bytes (last={last}) although the end marker was already delivered", bytes.len())));
+                }
+                (_, NextOut::Chunk { bytes, last, .. }) => {
+                    return Err(("next-after-failure-served", format!("response #{i} is a chunk of {} bytes (last={last}) although an error was already delivered", bytes.len())));
+                }
+            }
+        }
+        let (logical, clean) = if zstd { svs::zstd_decompress_lossy(&wire) } else { (wire, true) };
+        if healthy {
+            match state {
+                1 => {}
+                2 => return Err(("error-instead-of-content", "a healthy producer's stream ended with an error response".into())),
+                _ => return Err(("no-end-marker", "no response carried the end marker".into())),
+            }
+            if !clean || logical != expected {
+                return Err(("content-mismatch", format!("the chunks deliver {} logical bytes (complete frame: {clean}), the producer emitted {}; first difference at byte {}", logical.len(), expected.len(), first_diff(&logical, expected))));
+            }
+        } else {
+            match state {
+                2 => {}
+                1 => return Err(("end-marker-after-producer-failure", "the producer failed but a response carried the end marker".into())),
+                _ => return Err(("no-error-after-producer-failure", "the producer failed but no response was an error".into())),
+            }
+            if logical.len() > expected.len() || logical[..] != expected[..logical.len()] {
+                return Err(("delivered-prefix-differs", format!("the {} logical bytes delivered before the failure are not a prefix of the producer's bytes (first difference at {})", logical.len(), first_diff(&logical, expected))));
+            }
+        }
+        Ok(())
+    }
+
+    fn permutations(k: usize) -> Vec<Vec<usize>> {
+        fn go(cur: &mut Vec<usize>, used: &mut Vec<bool>, out: &mut Vec<Vec<usize>>) {
+            if cur.len() == used.len() {
+                out.push(cur.clone());
+                return;
+            }
+            for i in 0..used.len() {
+                if !used[i] {
+                    used[i] = true;
+                    cur.push(i);
+                    go(cur, used, out);
+                    cur.pop();
+                    used[i] = false;
+                }
+            }
+        }
+        let mut out = vec![];
+        go(&mut vec![], &mut vec![false; k], &mut out);
+        out
+    }
+
+    fn conc_scenario<T: RawTransport>(conns: &mut [RawSvs<T>], cfg: &Cfg, table: &GateTable, plan: &ConcPlan, acc: &mut Acc) -> Result<(), String> {
+        let class = cfg.kind.class();
+        let data = svs::payload(plan.data_seed, plan.n, false);
+        let (res, gid, src) = table.add(data.clone(), Some(plan.park_at), plan.fail, plan.panic);
+        let sid = match conns[0].open(&res)? {
+            Ok(o) => o.stream_id,
+            Err((ec, msg)) => {
+                table.remove(gid);
+                acc.violation(format!("C09:open-refused:{class}"), format!("open of a gated resource answered ec={ec} '{}'", trunc(&msg, 120)), plan.json(cfg));
+                return Ok(());
+            }
+        };
+        let k = plan.k;
+        let nconn = if plan.same_conn { 1 } else { k };
+        // (1) sequential pulls, rotating over the connections
+        let mut seq1: Vec<NextOut> = vec![];
+        let mut ended = false;
+        for i in 0..plan.pre {
+            let out = conns[i % nconn].next(sid)?;
+            ended = terminal(&out);
+            seq1.push(out);
+            if ended {
+                break;
+            }
+        }
+        // (2) k `next` requests written before the gate is opened
+        let mut conc: Vec<NextOut> = vec![];
+        let mut parked = false;
+        if !ended {
+            let mut ids: Vec<(usize, u64)> = vec![];
+            for (j, &slot) in plan.order.iter().enumerate() {
+                if j > 0 && plan.gaps_us[j - 1] > 0 {
+                    std::thread::sleep(Duration::from_micros(plan.gaps_us[j - 1]));
+                }
+                let ci = if plan.same_conn { 0 } else { slot };
+                ids.push((ci, conns[ci].send_next(sid)?));
+            }
+            if plan.targeted {
+                // everything deliverable before the gate was pulled, so the request that wins the session lock drains the
+                // channel and the producer reaches the gate: its closure observes that it was asked for the bytes behind it
+                parked = src.gate.wait_parked(if cfg.zstd { Duration::from_secs(2) } else { Duration::from_secs(12) });
+                if !parked && !cfg.zstd {
+                    acc.inconclusive.push(format!("gated producer never reached its gate although {k} next requests were written ({:?})", plan));
+                }
+            }
+            if plan.open_delay_us > 0 {
+                std::thread::sleep(Duration::from_micros(plan.open_delay_us));
+            }
+            src.gate.open();
+            let mut got: HashMap<(usize, u64), NextOut> = HashMap::new();
+            for ci in 0..nconn {
+                for _ in 0..ids.iter().filter(|(c, _)| *c == ci).count() {
+                    let f = conns[ci].recv_reply()?;
+                    got.insert((ci, f.header.id), RawSvs::<T>::next_out(f));
+                }
+            }
+            for (ci, id) in &ids {
+                conc.push(got.remove(&(*ci, *id)).ok_or_else(|| format!("no response carries request id {id} on connection {ci}"))?);
+            }
+            acc.count("conc_next_requests_in_flight_together", k as u64);
+            ended = conc.iter().any(terminal);
+        } else {
+            src.gate.open();
+        }
+        // (3) sequential tail until a terminal response, then one more `next` per connection
+        let mut seq2: Vec<NextOut> = vec![];
+        let bound = plan.n + plan.n / 64 + 64;
+        let mut i = 0;
+        while !ended && i < bound {
+            let out = conns[i % nconn].next(sid)?;
+            ended = terminal(&out);
+            seq2.push(out);
+            i += 1;
+        }
+        let mut after: Vec<NextOut> = vec![];
+        if ended {
+            for ci in 0..nconn {
+                after.push(conns[ci].next(sid)?);
+            }
+        } else {
+            let _ = conns[0].cancel(sid, false);
+        }
+        table.remove(gid);
+        if src.gate.timed_out() {
+            acc.inconclusive.push(format!("a gated producer waited {GATE_PARK_MAX:?} for its gate ({:?})", plan));
+            return Ok(());
+        }
+        // ---- oracle over all responses of all connections
+        acc.evals += 1;
+        acc.count("conc_scenarios", 1);
+        acc.count("chunks_observed", (seq1.iter().chain(&conc).chain(&seq2).chain(&after).filter(|o| matches!(o, NextOut::Chunk { .. })).count()) as u64);
+        if parked {
+            acc.count("conc_producer_seen_parked_with_requests_written", 1);
+        }
+        let all: Vec<&NextOut> = seq1.iter().chain(&conc).chain(&seq2).chain(&after).collect();
+        let n_last = all.iter().filter(|o| matches!(o, NextOut::Chunk { last: true, .. })).count();
+        for o in &all {
+            if let NextOut::Chunk { query, .. } = o {
+                if query.len() != 1 || query[0] > 1 {
+                    acc.violation(format!("C09:last-flag-encoding:{class}"), format!("chunk response query is {} instead of one byte 0/1", hex_trunc(query, 16)), plan.json(cfg));
+                }
+            }
+        }
+        let tags = |v: &[NextOut]| v.iter().map(out_tag).collect::<Vec<_>>();
+        let replay = || {
+            let mut j = plan.json(cfg);
+            j["responses"] = json!({"sequential_before": tags(&seq1), "in_flight_together(write order)": tags(&conc), "sequential_after": tags(&seq2), "after_the_end": tags(&after)});
+            j
+        };
+        let mut first_err: Option<(&'static str, String)> = None;
+        let mut ok = false;
+        for perm in permutations(conc.len()) {
+            let order: Vec<&NextOut> = seq1.iter().chain(perm.iter().map(|&i| &conc[i])).chain(&seq2).chain(&after).collect();
+            match conc_walk(&order, !plan.fail, &data, cfg.zstd) {
+                Ok(()) => {
+                    ok = true;
+                    break;
+                }
+                Err(e) => {
+                    if first_err.is_none() {
+                        first_err = Some(e);
+                    }
+                }
+            }
+        }
+        if !ok {
+            let (mut cls, why) = first_err.unwrap_or(("unexplained", String::new()));
+            if !plan.fail && n_last >= 2 {
+                cls = "duplicate-end-marker";
+            } else if plan.fail && n_last >= 1 {
+                cls = "end-marker-after-producer-failure";
+            }
+            acc.violation(
+                format!("C09:concurrent-next:{cls}:{class}"),
+                format!(
+                    "{} next requests for one stream id were in flight together ({}); {n_last} responses carry the end marker; no order of the concurrent responses is a legal stream: {why}",
+                    conc.len(),
+                    if plan.same_conn { "pipelined on one connection" } else { "one per connection" }
+                ),
+                replay(),
+            );
+        } else {
+            if plan.fail {
+                acc.count("producer_failures_surfaced_as_error", 1);
+            } else {
+                acc.count("streams_completed", 1);
+            }
+            acc.count("next_after_release_rejected", after.len() as u64);
+        }
+        // what the concurrent round looked like (evidence; the verdict above does not depend on it)
+        let (mut n_chunk, mut n_err) = (0, 0);
+        for (j, o) in conc.iter().enumerate() {
+            match o {
+                NextOut::Chunk { .. } => {
+                    n_chunk += 1;
+                    if plan.targeted && j == 0 {
+                        acc.count("conc_first_written_request_got_data", 1);
+                    } else if plan.targeted {
+                        acc.count("conc_later_written_request_got_data", 1);
+                    }
+                }
+                NextOut::ErrResp { msg, .. } => {
+                    n_err += 1;
+                    if msg.contains("already finished") {
+                        acc.count("conc_loser_found_live_session_then_finished", 1);
+                    } else if msg.contains("unknown stream_id") {
+                        acc.count("conc_loser_found_session_removed", 1);
+                    } else {
+                        acc.count("conc_producer_failure_delivered", 1);
+                    }
+                }
+            }
+        }
+        if conc.iter().any(terminal) {
+            acc.count("conc_rounds_containing_the_end_or_failure", 1);
+        }
+        acc.distinct.push(hash_of(&(
+            "conc",
+            cfg,
+            (plan.n / cfg.chunk).min(5),
+            if plan.n == 0 { 0 } else { 1 + (plan.n % cfg.chunk).min(2) },
+            plan.park_at == plan.n,
+            (plan.fail, plan.panic, plan.k, plan.same_conn, plan.targeted),
+            (n_chunk, n_err, n_last, seq2.len().min(3)),
+            conc.iter().position(|o| matches!(o, NextOut::Chunk { .. })),
+        )));
+        if acc.samples.len() < 2 && n_err > 0 && n_chunk > 0 {
+            acc.samples.push(replay());
+        }
+        Ok(())
+    }
+
+    fn conc_config<T: RawTransport>(conns: &mut [RawSvs<T>], cfg: &Cfg, table: &GateTable, seed: u64, acc: &mut Acc) -> Result<(), String> {
+        let mut rng = Rng::new(seed ^ 0xC0_9C0C);
+        for plan in conc_plans(cfg, &mut rng) {
+            conc_scenario(conns, cfg, table, &plan, acc)?;
+        }
+        Ok(())
+    }
+
+    fn conc_work(cfg: &Cfg, seed: u64, rt: &Arc<tokio::runtime::Runtime>, acc: &mut Acc) {
+        let table = Arc::new(GateTable::default());
+        let srv = match start_server_with(build_gated_router(cfg.kind, cfg.opts(), table.clone()), cfg.tr, rt) {
+            Ok(s) => s,
+            Err(e) => {
+                acc.inconclusive.push(format!("server start: {e}"));
+                return;
+            }
+        };
+        let r = match cfg.tr {
+            Tr::Tcp => (0..3).map(|_| TcpRaw::connect(srv.addr).map(RawSvs::new)).collect::<Result<Vec<_>, _>>().and_then(|mut conns| {
+                let r = conc_config(&mut conns, cfg, &table, seed, acc);
+                acc.count("frames_sent", conns.iter().map(|c| c.frames_sent).sum());
+                acc.count("frames_received", conns.iter().map(|c| c.frames_received).sum());
+                r
+            }),
+            Tr::Ws => (0..3).map(|_| WsRaw::connect(rt.clone(), &format!("ws://{}/repe", srv.addr)).map(RawSvs::new)).collect::<Result<Vec<_>, _>>().and_then(|mut conns| {
+                let r = conc_config(&mut conns, cfg, &table, seed, acc);
+                acc.count("frames_sent", conns.iter().map(|c| c.frames_sent).sum());
+                acc.count("frames_received", conns.iter().map(|c| c.frames_received).sum());
+                r
+            }),
+        };
+        if let Err(e) = r {
+            acc.inconclusive.push(format!("raw client trouble on {cfg:?}: {e}"));
+        }
+        acc.count("conc_configs", 1);
+    }
+
+    /// The configurations of the gated family of stage raw.
+    fn conc_cfgs(args: &Args) -> Vec<Cfg> {
+        let mut rng = Rng::new(args.seed ^ 0xC09_C0C0);
+        let mut v = vec![];
+        for tr in [Tr::Tcp, Tr::Ws] {
+            for kind in [Kind::Reader, Kind::Writer] {
+                for chunk in [1usize, 3, 64, 4096, 65536] {
+                    for zstd in [false, true] {
+                        let depths: Vec<usize> = if args.thorough() { (0..=8).collect() } else { vec![rng.usize_below(2), 2 + rng.usize_below(7)] };
+                        for depth in depths {
+                            v.push(Cfg { tr, kind, chunk, depth, zstd, fam: 1 });
+                        }
+                    }
+                }
+            }
+        }
+        v
+    }
+
     fn raw_work(cfg: &Cfg, seed: u64, thorough: bool, rt: &Arc<tokio::runtime::Runtime>, acc: &mut Acc) {
+        if cfg.fam == 1 {
+            return conc_work(cfg, seed, rt, acc);
+        }
         let srv = match start_server(cfg, rt) {
             Ok(s) => s,
             Err(e) => {
@@ -973,13 +1523,26 @@ mod imp {
              (chunk,last); oracle: concat (zstd-decoded by the harness) == independently computed logical bytes, exactly one end marker \
              and it is final, empty payload = one empty final chunk, next after end/cancel/failure is an error response, failing \
              producers never yield an end marker, partial deliveries are prefixes; distinct = (config, scenario, chunk count class, \
-             wire-length residue class, failure/delay/compressibility flags)",
+             wire-length residue class, failure/delay/compressibility flags). Gated family (reader/writer producers that park on a \
+             harness gate at byte park_at, mostly just before finishing or failing): after the sequentially deliverable chunks were \
+             pulled, 2..3 next requests for the SAME stream id are written (one per raw connection, or pipelined on one WebSocket \
+             connection, seeded write order and pauses) before the gate is opened; the producer's gate closure reports that it was \
+             asked for the bytes behind the gate; oracle over all responses of all connections: some order of the concurrent \
+             responses must be a legal stream (exactly one end marker for a healthy producer, none for a failing one, every \
+             response after the end/failure is an error response, chunk bodies concatenate to the producer's bytes / a prefix)",
         );
         let mut cfgs = grid(args, true, |i, _| if args.thorough() { vec![Tr::Tcp, Tr::Ws] } else if i % 3 == 0 { vec![Tr::Tcp, Tr::Ws] } else { vec![Tr::Tcp] });
         let mut rng = Rng::new(args.seed ^ 0x0C09_5AFE);
         rng.shuffle(&mut cfgs);
         let n = args.budget(cfgs.len() as u64, cfgs.len() as u64) as usize;
         cfgs.truncate(n.min(cfgs.len()).max(1));
+        // the gated family goes first so that a reduced budget still runs it
+        let mut fam = conc_cfgs(args);
+        rng.shuffle(&mut fam);
+        let nf = args.budget(fam.len() as u64, fam.len() as u64) as usize;
+        fam.truncate(nf.min(fam.len()).max(1));
+        fam.extend(cfgs);
+        let cfgs = fam;
         quiet_panics(true);
         run_pool(&mut rep, args, cfgs, raw_work);
         quiet_panics(false);
@@ -1150,8 +1713,337 @@ mod imp {
         specs
     }
 
+    // ------------------------------------------------------------------ stage pullers, gated family: a foreign cancel in the middle of a pull
+
+    thread_local! {
+        /// `svs.chunk_fetched` probe hits on this thread (the sync pullers fetch on the calling thread, the
+        /// async pull loop runs inside `block_on` on the calling thread).
+        static FETCHED: Cell<u64> = const { Cell::new(0) };
+    }
+
+    #[derive(Clone, Copy, Debug, PartialEq, Eq, Hash, PartialOrd, Ord)]
+    enum Pk {
+        ToVec,
+        Consume,
+        ToFile,
+        Decode,
+    }
+    impl Pk {
+        fn name(&self, kind: Kind, is_async: bool) -> &'static str {
+            match (self, is_async) {
+                (Pk::ToVec, false) => "pull_to_vec",
+                (Pk::ToVec, true) => "pull_to_vec_async",
+                (Pk::Consume, false) => "pull_consume",
+                (Pk::Consume, true) => "pull_consume_async",
+                (Pk::ToFile, false) => "pull_to_file",
+                (Pk::ToFile, true) => "pull_to_file_async",
+                (Pk::Decode, false) => if kind == Kind::Value { "pull_value" } else { "pull_typed_slice" },
+                (Pk::Decode, true) => if kind == Kind::Value { "pull_value_async" } else { "pull_typed_slice_async" },
+            }
+        }
+    }
+
+    /// Run one blocking puller; Ok carries the number of logical bytes it returned / wrote.
+    fn cancel_pull_sync(pk: Pk, kind: Kind, client: &Client, res: &str, dest: &std::path::Path, seed: u64, chunk: usize) -> Result<usize, String> {
+        let e = |e: RepeError| err_text(&e);
+        match pk {
+            Pk::ToVec => pull_to_vec(client, res).map(|v| v.len()).map_err(e),
+            Pk::Consume => pull_consume(client, res, |r| slow_drain(r, seed, chunk)).map(|v| v.len()).map_err(e),
+            Pk::ToFile => pull_to_file(client, res, dest).map(|_| std::fs::metadata(dest).map(|m| m.len() as usize).unwrap_or(0)).map_err(e),
+            Pk::Decode => match kind {
+                Kind::Value => pull_value::<String>(client, res).map(|v| v.len()).map_err(e),
+                Kind::Typed(Elem::U8) => pull_typed_slice::<u8>(client, res).map(|v| v.len()).map_err(e),
+                Kind::Typed(Elem::U16) => pull_typed_slice::<u16>(client, res).map(|v| v.len() * 2).map_err(e),
+                Kind::Typed(Elem::I64) => pull_typed_slice::<i64>(client, res).map(|v| v.len() * 8).map_err(e),
+                Kind::Typed(Elem::F32) => pull_typed_slice::<f32>(client, res).map(|v| v.len() * 4).map_err(e),
+                Kind::Typed(Elem::F64) => pull_typed_slice::<f64>(client, res).map(|v| v.len() * 8).map_err(e),
+                _ => Err("harness: no decoding puller for this kind".into()),
+            },
+        }
+    }
+
+    async fn cancel_pull_async<C: repe::value_stream::AsyncSvsClient>(pk: Pk, kind: Kind, client: &C, res: &str, dest: &std::path::Path, seed: u64, chunk: usize) -> Result<usize, String> {
+        let e = |e: RepeError| err_text(&e);
+        match pk {
+            Pk::ToVec => pull_to_vec_async(client, res).await.map(|v| v.len()).map_err(e),
+            Pk::Consume => pull_consume_async(client, res, move |mut r| slow_drain(&mut *r, seed, chunk)).await.map(|v| v.len()).map_err(e),
+            Pk::ToFile => pull_to_file_async(client, res, dest).await.map(|n| n as usize).map_err(e),
+            Pk::Decode => match kind {
+                Kind::Value => pull_value_async::<String, C>(client, res).await.map(|v| v.len()).map_err(e),
+                Kind::Typed(Elem::U8) => pull_typed_slice_async::<u8, C>(client, res).await.map(|v| v.len()).map_err(e),
+                Kind::Typed(Elem::U16) => pull_typed_slice_async::<u16, C>(client, res).await.map(|v| v.len() * 2).map_err(e),
+                Kind::Typed(Elem::I64) => pull_typed_slice_async::<i64, C>(client, res).await.map(|v| v.len() * 8).map_err(e),
+                Kind::Typed(Elem::F32) => pull_typed_slice_async::<f32, C>(client, res).await.map(|v| v.len() * 4).map_err(e),
+                Kind::Typed(Elem::F64) => pull_typed_slice_async::<f64, C>(client, res).await.map(|v| v.len() * 8).map_err(e),
+                _ => Err("harness: no decoding puller for this kind".into()),
+            },
+        }
+    }
+
+    /// Payload and gate position for one foreign-cancel scenario. The producer parks after `sent`
+    /// chunks entered the session channel (`sent >= depth + 2`, so at least one chunk response was
+    /// computed for the puller) and more than one further chunk follows the gate, so whatever `next` is
+    /// in flight when the gate opens is answered with a chunk that is NOT the last one.
+    fn cancel_payload(cfg: &Cfg, rng: &mut Rng) -> (Vec<u8>, usize, usize) {
+        let c = cfg.chunk;
+        let (want_len, sent) = if cfg.zstd {
+            (140_000 + 270_000 + rng.usize_below(5000), 0)
+        } else {
+            let sent = cfg.depth + 2 + rng.usize_below(3);
+            ((sent + 1) * c + 1 + rng.usize_below(2 * c + 1) + 24, sent)
+        };
+        let spec = Spec { p: 0, seed: rng.below(1 << 40), compressible: false, fail: None, panic: false, delay: false, vt: 0 };
+        let data = match cfg.kind {
+            Kind::Reader | Kind::Writer => svs::payload(spec.seed, want_len, false),
+            Kind::Typed(e) => logical_bytes(cfg.kind, &Spec { p: want_len / elem_size(e) + 1, ..spec }),
+            k => logical_bytes(k, &Spec { p: want_len, ..spec }),
+        };
+        let park_at = if cfg.zstd { 140_000 + rng.usize_below(2000) } else { sent * c + rng.usize_below(c) };
+        (data, park_at, sent)
+    }
+
+    struct CancelCtx<'a> {
+        cfg: &'a Cfg,
+        table: &'a GateTable,
+        tiny: &'a str,
+        dir: &'a std::path::Path,
+    }
+
+    /// One scenario: `run` executes a library puller on this thread against a gated producer while a
+    /// helper thread, once the producer is parked, learns the stream id from a second connection
+    /// (ids are allocated sequentially per registered producer: an `open` before and one after bracket
+    /// it), cancels it with a request-form cancel (acknowledged), and only then opens the gate.
+    fn cancel_scenario<T: RawTransport + Send>(
+        cx: &CancelCtx<'_>,
+        raw: &mut RawSvs<T>,
+        pk: Pk,
+        cname: &str,
+        is_async: bool,
+        rng: &mut Rng,
+        twins: &mut BTreeMap<(Pk, u64), Vec<(String, bool)>>,
+        twin_key: u64,
+        payload: &(Vec<u8>, usize, usize),
+        acc: &mut Acc,
+        run: impl FnOnce(&str, &std::path::Path) -> Result<usize, String>,
+    ) -> Result<(), String> {
+        let cfg = cx.cfg;
+        let class = cfg.kind.class();
+        let puller = pk.name(cfg.kind, is_async);
+        let (data, park_at, sent) = (payload.0.clone(), payload.1, payload.2);
+        let full_len = data.len();
+        let (res, gid, src) = cx.table.add(data, Some(park_at), false, false);
+        let dest = cx.dir.join(format!("dest-{gid}.bin"));
+        let preexisting = pk == Pk::ToFile && rng.coin();
+        if preexisting {
+            std::fs::write(&dest, b"previous content of the destination").map_err(|e| format!("scratch write: {e}"))?;
+        }
+        let before = svs::snapshot(cx.dir);
+        let replay = |extra: Value| json!({"cfg": cfg.json(), "client": cname, "puller": puller, "logical_len": full_len, "park_at": park_at, "chunks_sent_before_gate": sent, "destination_preexisting": preexisting, "observed": extra});
+        let a = match raw.open(cx.tiny)? {
+            Ok(o) => o.stream_id,
+            Err((ec, m)) => return Err(format!("bracketing open refused: ec={ec} {m}")),
+        };
+        raw.cancel(a, false)?;
+        let fetched0 = FETCHED.with(|c| c.get());
+        let tiny = cx.tiny;
+        let (result, helper) = std::thread::scope(|s| {
+            let src2 = src.clone();
+            let h = s.spawn(move || -> Result<(bool, u64, Vec<u64>), String> {
+                let parked = src2.gate.wait_parked(Duration::from_secs(15));
+                let r = (|| -> Result<(u64, Vec<u64>), String> {
+                    let b = match raw.open(tiny)? {
+                        Ok(o) => o.stream_id,
+                        Err((ec, m)) => return Err(format!("bracketing open refused: ec={ec} {m}")),
+                    };
+                    let mut cancelled = vec![];
+                    if b > a && b - a <= 64 {
+                        for id in a + 1..b {
+                            let ec = raw.cancel(id, false)?;
+                            if ec != 0 {
+                                return Err(format!("request-form cancel of stream {id} answered ec={ec}"));
+                            }
+                            cancelled.push(id);
+                        }
+                    }
+                    raw.cancel(b, false)?;
+                    Ok((b, cancelled))
+                })();
+                // the cancel was acknowledged (or the helper failed): release the producer either way
+                src2.gate.open();
+                r.map(|(b, c)| (parked, b, c))
+            });
+            let result = run(&res, &dest);
+            (result, h.join())
+        });
+        cx.table.remove(gid);
+        let fetched = FETCHED.with(|c| c.get()) - fetched0;
+        let after = svs::snapshot(cx.dir);
+        if preexisting || after.contains_key(&format!("dest-{gid}.bin")) {
+            let _ = std::fs::remove_file(&dest);
+        }
+        let (parked, b, cancelled) = match helper {
+            Ok(Ok(x)) => x,
+            Ok(Err(e)) => return Err(format!("cancelling helper: {e}")),
+            Err(_) => return Err("cancelling helper panicked".into()),
+        };
+        if !parked || src.gate.timed_out() {
+            acc.inconclusive.push(format!("{puller} over {cname}: the gated producer never reached its gate (result {:?})", result.as_ref().map_err(|e| trunc(e, 80))));
+            return Ok(());
+        }
+        if cancelled.is_empty() {
+            acc.inconclusive.push(format!("stream ids are not bracketed by two opens on the same producer (before {a}, after {b}): cannot address the puller's stream"));
+            return Ok(());
+        }
+        if cancelled.len() == 1 {
+            acc.count("foreign_cancel_stream_id_bracketed_exactly", 1);
+        }
+        acc.evals += 1;
+        acc.count("foreign_cancel_scenarios", 1);
+        acc.count("chunks_fetched_by_pullers_before_the_error", fetched);
+        if fetched >= 1 {
+            acc.count("pulls_cancelled_mid_stream", 1);
+        } else {
+            acc.count("pulls_cancelled_before_first_chunk", 1);
+        }
+        acc.distinct.push(hash_of(&("foreign-cancel", cfg, cname, pk, fetched.min(12), result.is_ok(), preexisting)));
+        twins.entry((pk, twin_key)).or_default().push((format!("{puller} over {cname}"), result.is_err()));
+        match &result {
+            Ok(len) => acc.violation(
+                format!("C09:puller-ok-after-foreign-cancel:{puller}:{class}"),
+                format!(
+                    "{puller} over {cname} returned Ok with {len} logical bytes (the producer's stream has {full_len}) although stream {:?} was released by another connection after {fetched} chunks and before the producer emitted its last {} bytes",
+                    cancelled,
+                    full_len - park_at
+                ),
+                replay(json!({"result": format!("Ok({len})"), "chunks_fetched": fetched})),
+            ),
+            Err(e) => {
+                acc.count("pulls_failing_after_foreign_cancel", 1);
+                if acc.samples.len() < 2 && fetched > 1 {
+                    acc.samples.push(replay(json!({"result": format!("Err({})", trunc(e, 100)), "chunks_fetched": fetched, "cancelled_stream_ids": cancelled})));
+                }
+            }
+        }
+        if after != before {
+            acc.violation(
+                format!("C09:directory-changed-after-foreign-cancel:{puller}:{class}"),
+                format!("{puller} over {cname} (result {:?}): directory before {} after {}", result.as_ref().map_err(|e| trunc(e, 80)), svs::describe_snapshot(&before), svs::describe_snapshot(&after)),
+                replay(json!({"chunks_fetched": fetched})),
+            );
+        } else if pk == Pk::ToFile {
+            acc.count("file_destinations_untouched_after_foreign_cancel", 1);
+        }
+        Ok(())
+    }
+
+    fn judge_twins(cfg: &Cfg, twins: &BTreeMap<(Pk, u64), Vec<(String, bool)>>, acc: &mut Acc) {
+        for ((pk, _), v) in twins {
+            if v.len() < 2 {
+                continue;
+            }
+            if v.iter().all(|x| x.1 == v[0].1) {
+                acc.count("sync_async_twins_agreeing_after_foreign_cancel", 1);
+            } else {
+                acc.violation(
+                    format!("C09:sync-async-disagree-after-foreign-cancel:{}:{}", pk.name(cfg.kind, false), cfg.kind.class()),
+                    format!("same stream, same foreign cancel: {}", v.iter().map(|(n, e)| format!("{n} -> {}", if *e { "Err" } else { "Ok" })).collect::<Vec<_>>().join("; ")),
+                    json!({"cfg": cfg.json()}),
+                );
+            }
+        }
+    }
+
+    fn cancel_config<T: RawTransport + Send>(cfg: &Cfg, raw: &mut RawSvs<T>, table: &GateTable, addr: SocketAddr, seed: u64, rt: &Arc<tokio::runtime::Runtime>, acc: &mut Acc) -> Result<(), String> {
+        let mut rng = Rng::new(seed ^ 0xCA9C_E1);
+        let (tiny, _, _) = table.add(vec![7u8; 3], None, false, false);
+        let dir = svs::fresh_dir("c09-cancel");
+        let cx = CancelCtx { cfg, table, tiny: &tiny, dir: &dir };
+        let mut pks = vec![Pk::ToVec, Pk::Consume, Pk::ToFile];
+        if cfg.kind.beve() {
+            pks.push(Pk::Decode);
+        }
+        let mut twins = BTreeMap::new();
+        let (kind, chunk) = (cfg.kind, cfg.chunk);
+        let r = (|| -> Result<(), String> {
+            match cfg.tr {
+                Tr::Tcp => {
+                    let client = Client::connect(addr).map_err(|e| format!("Client::connect: {e}"))?;
+                    let aclient = rt.block_on(AsyncClient::connect(addr)).map_err(|e| format!("AsyncClient::connect: {e}"))?;
+                    for (i, &pk) in pks.iter().enumerate() {
+                        let payload = cancel_payload(cfg, &mut rng);
+                        let s = rng.next_u64();
+                        cancel_scenario(&cx, raw, pk, "Client", false, &mut rng, &mut twins, i as u64, &payload, acc, |res, dest| cancel_pull_sync(pk, kind, &client, res, dest, s, chunk))?;
+                        cancel_scenario(&cx, raw, pk, "AsyncClient", true, &mut rng, &mut twins, i as u64, &payload, acc, |res, dest| rt.block_on(cancel_pull_async(pk, kind, &aclient, res, dest, s, chunk)))?;
+                    }
+                    acc.count("configs_sync_client", 1);
+                    acc.count("configs_async_client", 1);
+                }
+                Tr::Ws => {
+                    let url = format!("ws://{addr}/repe");
+                    let wclient = rt.block_on(WebSocketClient::connect(&url)).map_err(|e| format!("WebSocketClient::connect: {e}"))?;
+                    for (i, &pk) in pks.iter().enumerate() {
+                        let payload = cancel_payload(cfg, &mut rng);
+                        let s = rng.next_u64();
+                        cancel_scenario(&cx, raw, pk, "WebSocketClient", true, &mut rng, &mut twins, i as u64, &payload, acc, |res, dest| rt.block_on(cancel_pull_async(pk, kind, &wclient, res, dest, s, chunk)))?;
+                    }
+                    acc.count("configs_websocket_client", 1);
+                }
+            }
+            Ok(())
+        })();
+        judge_twins(cfg, &twins, acc);
+        let _ = std::fs::remove_dir_all(&dir);
+        r
+    }
+
+    fn cancel_work(cfg: &Cfg, seed: u64, rt: &Arc<tokio::runtime::Runtime>, acc: &mut Acc) {
+        let table = Arc::new(GateTable::default());
+        let srv = match start_server_with(build_gated_router(cfg.kind, cfg.opts(), table.clone()), cfg.tr, rt) {
+            Ok(s) => s,
+            Err(e) => {
+                acc.inconclusive.push(format!("server start: {e}"));
+                return;
+            }
+        };
+        let r = match cfg.tr {
+            Tr::Tcp => TcpRaw::connect(srv.addr).and_then(|t| cancel_config(cfg, &mut RawSvs::new(t), &table, srv.addr, seed, rt, acc)),
+            Tr::Ws => WsRaw::connect(rt.clone(), &format!("ws://{}/repe", srv.addr)).and_then(|t| cancel_config(cfg, &mut RawSvs::new(t), &table, srv.addr, seed, rt, acc)),
+        };
+        if let Err(e) = r {
+            acc.inconclusive.push(format!("foreign-cancel family trouble on {cfg:?}: {e}"));
+        }
+        acc.count("foreign_cancel_configs", 1);
+    }
+
+    /// The configurations of the gated family of stage pullers.
+    fn cancel_cfgs(args: &Args) -> Vec<Cfg> {
+        let mut rng = Rng::new(args.seed ^ 0xC09_CA9C);
+        let mut v = vec![];
+        for tr in [Tr::Tcp, Tr::Ws] {
+            for (ki, kind) in [Kind::Reader, Kind::Writer, Kind::Value, Kind::Typed(Elem::U8)].into_iter().enumerate() {
+                for chunk in [1usize, 3, 64, 4096, 65536] {
+                    for zstd in [false, true] {
+                        if zstd && !(chunk == 64 || chunk == 4096) {
+                            continue;
+                        }
+                        let kind = if let Kind::Typed(_) = kind { Kind::Typed(ELEMS[(ki + chunk + args.seed as usize + rng.usize_below(5)) % 5]) } else { kind };
+                        let dmax = if chunk >= 65536 { 2 } else { 8 };
+                        let depths: Vec<usize> = if args.thorough() { (0..=dmax).collect() } else { vec![rng.usize_below(dmax + 1)] };
+                        for depth in depths {
+                            v.push(Cfg { tr, kind, chunk, depth, zstd, fam: 1 });
+                        }
+                    }
+                }
+            }
+        }
+        v
+    }
+
     /// which client drives the pull is folded into the transport: Tcp => Client and AsyncClient alternate
     fn pullers_work(cfg: &Cfg, seed: u64, thorough: bool, rt: &Arc<tokio::runtime::Runtime>, acc: &mut Acc) {
+        if cfg.fam == 1 {
+            return cancel_work(cfg, seed, rt, acc);
+        }
         let srv = match start_server(cfg, rt) {
             Ok(s) => s,
             Err(e) => {
@@ -1214,16 +2106,34 @@ mod imp {
             "the same grid pulled with pull_to_vec, pull_consume (seeded slow reader), pull_value, pull_typed_slice, pull_complex_slice over \
              the sync Client, and their async forms over AsyncClient (sync Server) and WebSocketClient (WebSocketServer); oracle: the \
              returned bytes/values re-encoded equal the independently computed logical bytes; a failing producer (reader error at byte k, \
-             writer error/panic, serializer error) must give Err from every puller; distinct = (config, client, puller, flags, length class)",
+             writer error/panic, serializer error) must give Err from every puller; distinct = (config, client, puller, flags, length class). \
+             Gated family (foreign cancel): each puller (pull_to_vec, pull_consume, pull_to_file, pull_value / pull_typed_slice and their \
+             async forms over AsyncClient and WebSocketClient) pulls from a producer parked on a harness gate after >= depth+2 chunks; a \
+             second raw connection brackets the puller's stream id with two opens (ids are sequential per producer), sends a \
+             request-form /_svs/cancel for it, and only after the ack the gate is opened (more than one chunk still follows); oracle: \
+             every puller returns Err, the destination directory is unchanged, sync and async twins agree",
         );
         let mut cfgs = grid(args, false, |i, _| if args.thorough() { vec![Tr::Tcp, Tr::Ws] } else if i % 3 == 0 { vec![Tr::Ws] } else { vec![Tr::Tcp] });
         let mut rng = Rng::new(args.seed ^ 0x0C09_9011);
         rng.shuffle(&mut cfgs);
         let n = args.budget(cfgs.len() as u64, cfgs.len() as u64) as usize;
         cfgs.truncate(n.min(cfgs.len()).max(1));
+        // the gated family goes first so that a reduced budget still runs it
+        let mut fam = cancel_cfgs(args);
+        rng.shuffle(&mut fam);
+        let nf = args.budget(fam.len() as u64, fam.len() as u64) as usize;
+        fam.truncate(nf.min(fam.len()).max(1));
+        fam.extend(cfgs);
+        let cfgs = fam;
+        repe::verif_hooks::set_probe(Some(Arc::new(|point: &'static str, _id: u64| {
+            if point == "svs.chunk_fetched" {
+                FETCHED.with(|c| c.set(c.get() + 1));
+            }
+        })));
         quiet_panics(true);
         run_pool(&mut rep, args, cfgs, pullers_work);
         quiet_panics(false);
+        repe::verif_hooks::set_probe(None);
         if rep.get_count("pulls_matching") == 0 && rep.inconclusive.is_empty() {
             rep.inconclusive("no pull completed");
         }
